@@ -62,10 +62,19 @@ impl Report {
     }
     /// record a non-trivial case signature (hashed) for distinct counting
     pub fn sig(&mut self, h: u64) {
-        self.distinct.insert(h);
+        // bounded memory: past 2M signatures per worker the set stops growing (the reported number
+        // of distinct cases is then a lower bound)
+        if self.distinct.len() < 2_000_000 {
+            self.distinct.insert(h);
+        } else {
+            *self.counters.entry("distinct_set_saturated(lower bound reported)".to_string()).or_insert(0) += 1;
+        }
     }
     pub fn sig_in(&mut self, set: &str, h: u64) {
-        self.distinct_named.entry(set.to_string()).or_default().insert(h);
+        let e = self.distinct_named.entry(set.to_string()).or_default();
+        if e.len() < 1_000_000 {
+            e.insert(h);
+        }
     }
     pub fn sample(&mut self, v: Value) {
         if self.samples.len() < MAX_SAMPLES {
